@@ -1,8 +1,11 @@
 // C20 conformance helper: built from the real xsystem.hpp / xplatform.hpp, copied (hard-linked) to
 // every install location the spec enumerates and started there the way the configuration says.
-// Reads one script line {"op":"Run"|"Endian",...} on stdin, performs the calls, prints the line
+// Reads one script line {"op":"Run"|"Blind"|"Endian",...} on stdin, performs the calls, prints the line
 // extended with what it observed.  No oracle: the returned strings are only DESCRIBED
 // (per component: byte length, character class, 30-bit hash), TLC compares with InstallPath.tla.
+// Run: executable_path(), prefix_path(), then chdir("/") and both again ("again": the answers may not depend on
+// the working directory or on earlier calls).  Blind: the same calls where the platform gives no answer (no /proc):
+// only "the calls returned" is reported.  Only the public functions are used, their results through std::string.
 #include <cstdint>
 #include <cstdio>
 #include <cstring>
@@ -23,16 +26,30 @@ namespace
         return (h ^ (h >> 15)) & 0x3fffffffu;
     }
 
+    bool ends_with(const std::string& s, const char* suffix)
+    {
+        std::size_t n = std::strlen(suffix);
+        return s.size() >= n && s.compare(s.size() - n, n, suffix) == 0;
+    }
+
+    // the same classification as checks/c20.py cls_of (a description of the name, first match wins)
     const char* cls_of(const std::string& s)
     {
-        bool sp = false, dot = false, punct = false;
+        bool sp = false, dot = false, punct = false, ctrl = false, high = false, low = false;
         for (unsigned char c : s)
         {
-            if (c >= 0x80) return "utf8";
+            if (c >= 0x80) high = true; else low = true;
             if (c == ' ') sp = true;
             if (c == '.') dot = true;
+            if ((c < 0x20 && c != '\t') || c == 0x7f) ctrl = true;
             if (std::strchr("\\'\":;*?<>|&$!#()[]{}`~^\t", c) && c != 0) punct = true;
         }
+        if (high) return low ? "utf8" : "mb";
+        if (ctrl) return "ctrl";
+        if (ends_with(s, " (deleted)")) return "delsfx";
+        if (!s.empty() && (s.front() == ' ' || s.back() == ' ')) return "edge";
+        if ((s.size() >= 2 && s[0] == '.' && s[1] == '.') || (!s.empty() && s.back() == '.')) return "dots";
+        if (!s.empty() && (s.front() == '-' || s.front() == '.')) return "lead";
         return punct ? "punct" : sp ? "space" : dot ? "dot" : "ascii";
     }
 
@@ -85,12 +102,23 @@ int main()
     vj::value e = vj::parse(line);
     const std::string op = e.str("op");
     std::string body = line.substr(0, line.find_last_of('}'));
-    if (op == "Run")
+    if (op == "Blind")
     {
         std::string exe = xtl::executable_path();
         std::string pre = xtl::prefix_path();
+        std::printf("%s,\"res\":{\"returned\":true},\"sizes\":[%lld,%lld]}\n", body.c_str(), (long long)exe.size(), (long long)pre.size());
+    }
+    else if (op == "Run")
+    {
+        std::string exe = xtl::executable_path();
+        std::string pre = xtl::prefix_path();
+        if (chdir("/") != 0) { std::fprintf(stderr, "chdir failed\n"); return 3; }
+        std::string exe2 = xtl::executable_path();
+        std::string pre2 = xtl::prefix_path();
+        vj::out again;
+        again.kraw("exe", describe(exe2)).kraw("prefix", describe(pre2));
         vj::out res;
-        res.kraw("exe", describe(exe)).kraw("prefix", describe(pre)).kv("bytes", (long long)exe.size());
+        res.kraw("exe", describe(exe)).kraw("prefix", describe(pre)).kv("bytes", (long long)exe.size()).kraw("again", again.obj());
         // what the kernel says, read independently with a large buffer: not compared by the spec, used by the
         // runner only to tell "the configuration was not materialised as intended" from a violation
         std::printf("%s,\"res\":%s,\"indep\":%s}\n", body.c_str(), res.obj().c_str(), describe(proc_self_exe()).c_str());
